@@ -15,6 +15,9 @@ HARNESSES = {
     'c18': dict(flavour='asan', srcs=['c18.cpp']),
     'c10': dict(flavour='asan', srcs=['c10.cpp']),
     'c16': dict(flavour='asan', srcs=['c16.cpp']),
+    'c12': dict(flavour='asan', srcs=['c12.cpp']),
+    'c12_fuzz': dict(flavour='fuzz', srcs=['c12_fuzz.cpp']),
+    'oomd_bin': dict(flavour='asan', srcs=[], common=False, with_main=True, libs='-ljsoncpp -lsystemd'),
 }
 
 PROPS = {
@@ -248,6 +251,26 @@ PROPS = {
         assumptions=['patterns with a "." or ".." component are path navigation, not cgroup names: excluded from '
                      'resolution and counted'],
     ),
+    'C12': dict(
+        harness='c12', level='exploration', engine='rapidcheck + libFuzzer',
+        quick=dict(shards=8, n=4000, size=100, fuzz_jobs=8, fuzz_runs=40000, bin_docs=320),
+        thorough=dict(shards=16, n=150000, size=100, fuzz_jobs=16, fuzz_runs=3000000, bin_docs=3000),
+        rule='four cooperating checks. (a) libFuzzer (ASan+UBSan) on configuration text with the repository fixtures, '
+             'etc/desktop.json and the documentation examples as corpus and a dictionary of keys / plugin names: '
+             'JsonConfigParser::parse may reject by exception, compile() and compileDropIn() must never throw and are '
+             'deterministic. (b) rapidcheck IR generator over the core plugins with an argument table transcribed from '
+             'docs/core_plugins.md: a valid ruleset with at most one defect (unnamed ruleset / group / plugin, unknown '
+             'plugin, missing required argument, undeclared argument, a value with no valid reading in its type, bad '
+             'silence-logs, non-numeric delays, empty group / chain) must be rejected by compile() and compileDropIn() '
+             'without exception, valid ones accepted; scripted plugins are initialised in configuration order with '
+             'exactly their arguments. (c) size / percent / megabyte strings from a grammar and its mutations against an '
+             'exact 128-bit SizeModel (accepted = exact bytes, >= 2^63 / non-finite / garbage rejected, don\'t-care for '
+             'signs, exponents, hex, stray blanks). (d) the real oomd binary: --check-config on corpus documents and '
+             'seeded structural mutations must exit 0 or 1, never by signal. Non-trivial = fuzz documents that parse as '
+             'JSON with >=1 ruleset and reach the compiler; IR cases with exactly one defect; multi-component or '
+             'fractional sizes; distinct by document / case hash.',
+        assumptions=['continue / stop are undocumented no-op plugins that ignore their arguments (not in the table)'],
+    ),
 }
 
 
@@ -318,5 +341,81 @@ def run_C16(r, spec, tier):
     cov['samples'] = (enum['samples'] + cov['samples'])[:3]
     for k, v in enum['labels'].items():
         cov['labels'][k] = cov['labels'].get(k, 0) + v
+    cov['replayed'] = nrep
+    return cov
+
+
+def mutate_docs(seed, n):
+    """Seeded structural mutations of the corpus configs for the process-level tier."""
+    import glob as _g, json as _j, random, os as _os
+    rnd = random.Random(seed)
+    base = []
+    here = _os.path.dirname(_os.path.dirname(_os.path.abspath(__file__)))
+    for f in sorted(_g.glob(_os.path.join(here, 'corpus', 'C12', '*.json'))):
+        txt = open(f).read()
+        try:
+            base.append((_os.path.basename(f), _j.loads(txt), txt))
+        except Exception:
+            base.append((_os.path.basename(f), None, txt))
+    docs = [(b[0], b[2]) for b in base]
+    wrong = [None, 1, -1, 1.5, True, [], {}, "", "abc", [1, 2], {"name": 3}, "99999999999999999999", 1e308,
+             "nan", [[[]]], {"args": []}]
+
+    def paths(v, pre=()):
+        out = [pre]
+        if isinstance(v, dict):
+            for k in v:
+                out += paths(v[k], pre + (k,))
+        elif isinstance(v, list):
+            for i in range(len(v)):
+                out += paths(v[i], pre + (i,))
+        return out
+
+    objs = [b for b in base if b[1] is not None]
+    while len(docs) < n and objs:
+        name, obj, txt = rnd.choice(objs)
+        kind = rnd.randrange(6)
+        if kind == 0:  # truncated / corrupted text
+            cut = rnd.randrange(len(txt) + 1)
+            docs.append((name + ':cut', txt[:cut]))
+            continue
+        if kind == 1:
+            i = rnd.randrange(len(txt))
+            docs.append((name + ':byte', txt[:i] + rnd.choice('{}[]",:x0\\\n') + txt[i + 1:]))
+            continue
+        o = _j.loads(_j.dumps(obj))
+        ps = [p for p in paths(o) if p]
+        p = rnd.choice(ps)
+        cur = o
+        for k in p[:-1]:
+            cur = cur[k]
+        if kind == 2:
+            cur[p[-1]] = rnd.choice(wrong)
+        elif kind == 3:
+            del cur[p[-1]]
+        elif kind == 4 and isinstance(cur, dict):
+            cur[rnd.choice(['bogus', 'name', 'args', 'cgroup', 'post_action_delay'])] = rnd.choice(wrong)
+        else:
+            cur[p[-1]] = [cur[p[-1]]]
+        docs.append((name + ':mut', _j.dumps(o)))
+    return docs[:n]
+
+
+def run_C12(r, spec, tier):
+    import os
+    nrep = r.replay_tier(spec['harness'])
+    agg = r.campaign(spec['harness'], 'main', tier['shards'], tier['n'], tier['size'])
+    cov = cov_from(agg)
+    here = os.path.dirname(os.path.dirname(os.path.abspath(__file__)))
+    fz = r.fuzz('c12_fuzz', 'fuzz', tier['fuzz_jobs'], tier['fuzz_runs'], os.path.join(here, 'corpus', 'C12'),
+                dict_file=os.path.join(here, 'corpus', 'C12.dict'))
+    docs = mutate_docs(r.seed, tier['bin_docs'])
+    bn = r.bincheck(docs)
+    cov['evaluations'] += fz['evaluations'] + bn['n']
+    cov['distinct_nontrivial'] += fz['distinct']
+    cov['fuzz'] = dict(executions=fz['evaluations'], parsed_as_json=fz['parsed'], accepted_by_compile=fz['accepted'],
+                       distinct_reached_compiler=fz['distinct'], jobs=fz['shards'], wall_s=round(fz['wall_s'], 1))
+    cov['binary'] = bn
+    cov['samples'] = (cov['samples'] + fz['samples'][:1])[:4]
     cov['replayed'] = nrep
     return cov
